@@ -36,7 +36,7 @@ META = {
     "technique": "Coq proof (totality of modelled cores, sound path exploration of translated "
                  "skeletons) + in-Coq correspondence + grammar-based crash search on the real CLI",
 }
-GEN = ["GenLoadModel"]
+GEN = ["GenLoadModel", "GenRetreeTables"]
 MODEL = ["Model/ArgUnpack", "Model/LoadSkel", "Gen/GenLoadModel"]
 TRUSTED = [
     "harness/translate/loadmodel.py (Python ast -> skeleton / guard tables), fail closed",
@@ -278,9 +278,15 @@ def system_stream(ctx: lib.Ctx) -> None:
     # systematic sweep: one minimal module per entry of every construct pool
     sweep = ch.sweep_texts()
     if not ctx.thorough:
-        sweep = ctx.rng.sample(sweep, 90)
+        # quick: the representatives of the distinct outcomes (one text per distinct
+        # report of the front end, computed offline over the whole sweep) + a sample
+        core_path = lib.VERIF / "harness" / "corpus" / "c01_sweep_core.json"
+        core = set(json.loads(core_path.read_text())) if core_path.exists() else set()
+        chosen = [x for x in sweep if x[1] in core]
+        others = [x for x in sweep if x[1] not in core]
+        sweep = chosen + ctx.rng.sample(others, min(len(others), 30 if chosen else 200))
     items += [(t, ["sweep:" + label.split(":")[0]]) for t, label in sweep]
-    items += gen_texts(ctx.rng, ctx.n(90, 12000), ctx.n(30, 3000))
+    items += gen_texts(ctx.rng, ctx.n(60, 12000), ctx.n(25, 3000))
     results = run_jobs([job_of(t) for t, _ in items], batch=25 if not ctx.thorough else 60,
                        workers=10)
     stages = collections.Counter()
